@@ -250,7 +250,8 @@ def find_loops(body, masked):
     return res
 
 
-def rewrite_loops(body, log, fname):
+def rewrite_loops(body, log, fname, slice_map=None):
+    slice_map = slice_map or {}
     """R1-R4: rewrite iterator-adapter `for` loops that Verus does not accept into index loops.
     Applied repeatedly until no pattern is left.  Each rewrite is logged."""
     changed = True
@@ -327,11 +328,17 @@ def rewrite_loops(body, log, fname):
             m = re.match(r'for (\w+) in (.+?)\.iter\(\)$', hn)
             if m:
                 v_, x_ = m.groups()
-                k = len(re.findall(r'\bverif_k\d+\b', body))
+                k = len(set(re.findall(r'\bverif_k\d+\b', body)))
                 idx = 'verif_k%d' % k
+                pre = ''
+                if x_ in slice_map:
+                    sl = 'verif_sl%d' % k
+                    pre = 'let %s = %s;\n ' % (sl, slice_map[x_])
+                    log.append('R2s %s: `%s.iter()` iterated through the slice `%s`' % (fname, x_, slice_map[x_]))
+                    x_ = sl
                 if 'continue' in mask_noncode(inner):
                     inner = add_increment_before_continue(inner, '%s += 1;' % idx)
-                new = ('let mut %s: usize = 0;\n while %s < %s.len() /*@LOOPHEAD*/ {\n let %s = &%s[%s];\n%s\n %s += 1;\n }'
+                new = (pre + 'let mut %s: usize = 0;\n while %s < %s.len() /*@LOOPHEAD*/ {\n let %s = &%s[%s];\n%s\n %s += 1;\n }'
                        % (idx, idx, x_, v_, x_, idx, inner, idx))
                 body = body[:kpos] + new + body[cpos + 1:]
                 log.append('R2 %s: `%s`' % (fname, hn))
@@ -377,10 +384,10 @@ class FnSpec:
         self.no_body_check = False
 
 
-def emit_fn(vf, src, path, spec, label=None, indent='    ', _canary_copy=False):
+def emit_fn(vf, src, path, spec, label=None, indent='    ', _canary_copy=False, keep_pub=False):
     if vf.canary and not _canary_copy:
         # vacuity mode: emit the function unchanged, then a renamed copy whose extra `ensures false` must FAIL
-        emit_fn(vf, src, path, spec, label=label, indent=indent, _canary_copy=True)
+        emit_fn(vf, src, path, spec, label=label, indent=indent, _canary_copy=True, keep_pub=keep_pub)
     it = src.find(path)
     if it.kind != 'fn' or it.body_open is None:
         raise ToolLimit('%s is not a function with a body' % '::'.join(path))
@@ -403,10 +410,12 @@ def emit_fn(vf, src, path, spec, label=None, indent='    ', _canary_copy=False):
     for (pat, rep, reason) in spec.replace:
         nb, cnt = re.subn(pat, rep, body)
         if cnt == 0:
+            if reason.startswith('R6'):
+                continue
             raise ToolLimit('declared rewrite %r did not apply in %s' % (pat, fname))
         body = nb
         vf.rewrites.append('RX %s: %s (%d site(s))' % (fname, reason, cnt))
-    body = rewrite_loops(body, vf.rewrites, fname)
+    body = rewrite_loops(body, vf.rewrites, fname, getattr(spec, 'slice_map', None))
     # anchored inserts
     for (mode, anchor, nth, text) in spec.inserts:
         masked = mask_noncode(body)
@@ -442,7 +451,7 @@ def emit_fn(vf, src, path, spec, label=None, indent='    ', _canary_copy=False):
     flo = vf.lineno()
     if spec.attrs:
         vf.emit(indent + spec.attrs)
-    vf.emit(indent + sig.strip())
+    vf.emit(indent + ('pub ' if keep_pub else '') + sig.strip())
     if where.strip():
         vf.emit(indent + '    ' + where.strip())
     body_ob = Oblig(fname + '#body', spec.body_props, 'body', fname,
@@ -515,14 +524,15 @@ def emit_lemma(vf, oid, props, text):
             vf.obligs.append(ob)
 
 
-def emit_item(vf, src, path, indent='', keep_pub=False, replace=()):
+def emit_item(vf, src, path, indent='', keep_pub=False, replace=(), keep_field_pub=False):
     """Emit a struct/enum/const/type item (X1 + visibility stripped on the item itself)."""
     it = src.find(path)
     text = src.text[it.start:it.end]
     text = strip_attrs_and_docs(text)
     text = strip_vis(text)
     # field visibilities
-    text = re.sub(r'\bpub(\s*\([^)]*\))?\s+', '', text)
+    if not keep_field_pub:
+        text = re.sub(r'\bpub(\s*\([^)]*\))?\s+', '', text)
     if keep_pub:
         text = 'pub ' + text
     for (pat, rep) in replace:
@@ -612,6 +622,7 @@ def process_template(vf, tpath, sources, default_props=()):
             path = [s.replace('+', ' ') for s in a[1].split('::')]
             spec = FnSpec()
             label = None
+            keep_pub = False
             for kv in a[2:]:
                 k, _, v = kv.partition('=')
                 if k == 'ret':
@@ -624,6 +635,8 @@ def process_template(vf, tpath, sources, default_props=()):
                     label = v
                 elif k == 'nobody':
                     spec.no_body_check = True
+                elif k == 'pub':
+                    keep_pub = True
                 else:
                     raise ToolLimit('bad //@fn option ' + kv)
             j = i + 1
@@ -696,7 +709,7 @@ def process_template(vf, tpath, sources, default_props=()):
                 else:
                     raise ToolLimit('unknown directive //@%s in %s' % (dd, tpath))
                 j += 1
-            emit_fn(vf, getsrc(srcl), path, spec, label=label, indent=indent)
+            emit_fn(vf, getsrc(srcl), path, spec, label=label, indent=indent, keep_pub=keep_pub)
             i = j + 1
         else:
             raise ToolLimit('unknown directive //@%s in %s' % (d, tpath))
